@@ -64,10 +64,10 @@ open FileSt in
     `Push` (named or not, verified or not, with duplicate restoration) and `Tag` keep it. -/
 theorem c06_file_inv_reachable (c : StoreCfg) :
     FileSt.Inv FileSt.empty ∧
-    (∀ st d good forceCAS noOverwrite removeOnFail, FileSt.Inv st →
-      FileSt.Inv (push c false st d good forceCAS noOverwrite removeOnFail).1) ∧
+    (∀ st d good forceCAS noOverwrite removeOnFail ignoreNoName, FileSt.Inv st →
+      FileSt.Inv (push c false st d good forceCAS noOverwrite removeOnFail ignoreNoName).1) ∧
     (∀ st d r, FileSt.Inv st → FileSt.Inv (tag c st d r).1) := by
-  refine ⟨inv_empty, fun st d good fc no rf h => inv_push c st d good h fc no rf, ?_⟩
+  refine ⟨inv_empty, fun st d good fc no rf inn h => inv_push c st d good h fc no rf inn, ?_⟩
   intro st d r h
   unfold tag
   cases r with
@@ -109,11 +109,14 @@ open FileSt in
     an error (duplicate name, already exists, content that does not verify), `Exists` and
     `Fetch` answer every descriptor exactly as before. -/
 theorem c06_file_failed_push_is_noop (c : StoreCfg) (st : FileSt) (d : SDesc) (good : Bool) (e : SErr)
-    (forceCAS noOverwrite removeOnFail : Bool)
-    (h : FileSt.Inv st) (he : (push c false st d good forceCAS noOverwrite removeOnFail).2 = .error e) :
-    ∀ q, exists_ c (push c false st d good forceCAS noOverwrite removeOnFail).1 q = exists_ c st q ∧
-         fetch c (push c false st d good forceCAS noOverwrite removeOnFail).1 q = fetch c st q := by
+    (forceCAS noOverwrite removeOnFail ignoreNoName : Bool)
+    (h : FileSt.Inv st) (he : (push c false st d good forceCAS noOverwrite removeOnFail ignoreNoName).2 = .error e) :
+    ∀ q, exists_ c (push c false st d good forceCAS noOverwrite removeOnFail ignoreNoName).1 q = exists_ c st q ∧
+         fetch c (push c false st d good forceCAS noOverwrite removeOnFail ignoreNoName).1 q = fetch c st q := by
   unfold push at he ⊢
+  by_cases hi : ignoreNoName = true ∧ d.name = none
+  · simp [hi] at he
+  simp only [hi, if_false] at he ⊢
   cases hname : d.name with
   | none =>
     simp only [hname] at he ⊢
